@@ -298,10 +298,16 @@ class Ctx:
             self.assume(cond if mv else z3.Not(cond))
             return mv
 
+    UNBOUNDED_REALISATION_CAP = 6
+
     def realize(self, p):
-        """force a concrete value: fork over the (finite) set of feasible values"""
+        """force a concrete value: fork over the feasible values.  The value set must be finite (bounded integer inputs);
+        an expression over unbounded variables that keeps admitting new values is cut after a few alternatives and the
+        sub-tree is reported as inconclusive (never as success)"""
         e = self.z(p)
         self.stats['realisations'] += 1
+        unbounded = any(v not in self.bounded for mono in (p.p if isinstance(p, Sym) else p) for v in mono)
+        excluded = 0
         while True:
             i = len(self.trace)
             if i < len(self.prefix):
@@ -309,7 +315,11 @@ class Ctx:
                 if ent[0] == 'r':
                     self.assume(e == rv(ent[1])); return ent[1]
                 assert ent[0] == 'n', ent
-                self.assume(e != rv(ent[1])); continue
+                self.assume(e != rv(ent[1])); excluded += 1; continue
+            if unbounded and excluded >= self.UNBOUNDED_REALISATION_CAP:
+                self.stats['inconclusive_paths'] += 1; self.complete = False
+                self.stats['unbounded_realisations_cut'] = self.stats.get('unbounded_realisations_cut', 0) + 1
+                raise PathAbort()
             try:
                 m = self._model()
                 v = z3val_to_frac(m.eval(e, model_completion=True))
